@@ -107,71 +107,83 @@ Record client := mkC {
   csent : bool;                    (* an EndTxn(commit) was applied *)
   cowned : bool;                   (* it has opened a coordinator transaction *)
   ctoc : list nat;                 (* offset items of the TxnOffsetCommit the group coordinator applied last *)
-  cerr : bool                      (* error_transaction / fatal_error happened in this transaction *)
+  cerr : bool;                     (* fatal_error happened (it clears the registered sets) *)
+  creq : list nat;                 (* partitions of the AddPartitionsToTxn request the coordinator applied last *)
+  cend : bool                      (* an EndTxn of this transaction was applied by the coordinator *)
 }.
 
 Definition client0 : client :=
-  mkC true 0 UNINIT [] [] false [] [] [] [] None 0 [] false [] false false [] false.
+  mkC true 0 UNINIT [] [] false [] [] [] [] None 0 [] false [] false false [] false [] false.
 
 (* field updates *)
 Definition set_alive (c : client) (x : bool) :=
   mkC x (cep c) (cst c) (txn_parts c) (pend_parts c) (grp c) (pend_offs c) (queue c) (inflight c) (deadb c)
-      (slot c) (kcur c) (accepted c) (lostb c) (capp c) (csent c) (cowned c) (ctoc c) (cerr c).
+      (slot c) (kcur c) (accepted c) (lostb c) (capp c) (csent c) (cowned c) (ctoc c) (cerr c) (creq c) (cend c).
 Definition set_cep (c : client) (x : nat) :=
   mkC (alive c) x (cst c) (txn_parts c) (pend_parts c) (grp c) (pend_offs c) (queue c) (inflight c) (deadb c)
-      (slot c) (kcur c) (accepted c) (lostb c) (capp c) (csent c) (cowned c) (ctoc c) (cerr c).
+      (slot c) (kcur c) (accepted c) (lostb c) (capp c) (csent c) (cowned c) (ctoc c) (cerr c) (creq c) (cend c).
 Definition set_cst (c : client) (x : tst) :=
   mkC (alive c) (cep c) x (txn_parts c) (pend_parts c) (grp c) (pend_offs c) (queue c) (inflight c) (deadb c)
-      (slot c) (kcur c) (accepted c) (lostb c) (capp c) (csent c) (cowned c) (ctoc c) (cerr c).
+      (slot c) (kcur c) (accepted c) (lostb c) (capp c) (csent c) (cowned c) (ctoc c) (cerr c) (creq c) (cend c).
 Definition set_parts (c : client) (t p : list nat) :=
   mkC (alive c) (cep c) (cst c) t p (grp c) (pend_offs c) (queue c) (inflight c) (deadb c)
-      (slot c) (kcur c) (accepted c) (lostb c) (capp c) (csent c) (cowned c) (ctoc c) (cerr c).
+      (slot c) (kcur c) (accepted c) (lostb c) (capp c) (csent c) (cowned c) (ctoc c) (cerr c) (creq c) (cend c).
 Definition set_grp (c : client) (x : bool) :=
   mkC (alive c) (cep c) (cst c) (txn_parts c) (pend_parts c) x (pend_offs c) (queue c) (inflight c) (deadb c)
-      (slot c) (kcur c) (accepted c) (lostb c) (capp c) (csent c) (cowned c) (ctoc c) (cerr c).
+      (slot c) (kcur c) (accepted c) (lostb c) (capp c) (csent c) (cowned c) (ctoc c) (cerr c) (creq c) (cend c).
 Definition set_offs (c : client) (x : list (list nat)) :=
   mkC (alive c) (cep c) (cst c) (txn_parts c) (pend_parts c) (grp c) x (queue c) (inflight c) (deadb c)
-      (slot c) (kcur c) (accepted c) (lostb c) (capp c) (csent c) (cowned c) (ctoc c) (cerr c).
+      (slot c) (kcur c) (accepted c) (lostb c) (capp c) (csent c) (cowned c) (ctoc c) (cerr c) (creq c) (cend c).
 Definition set_queue (c : client) (x : list batch) :=
   mkC (alive c) (cep c) (cst c) (txn_parts c) (pend_parts c) (grp c) (pend_offs c) x (inflight c) (deadb c)
-      (slot c) (kcur c) (accepted c) (lostb c) (capp c) (csent c) (cowned c) (ctoc c) (cerr c).
+      (slot c) (kcur c) (accepted c) (lostb c) (capp c) (csent c) (cowned c) (ctoc c) (cerr c) (creq c) (cend c).
 Definition set_inflight (c : client) (x : list batch) :=
   mkC (alive c) (cep c) (cst c) (txn_parts c) (pend_parts c) (grp c) (pend_offs c) (queue c) x (deadb c)
-      (slot c) (kcur c) (accepted c) (lostb c) (capp c) (csent c) (cowned c) (ctoc c) (cerr c).
+      (slot c) (kcur c) (accepted c) (lostb c) (capp c) (csent c) (cowned c) (ctoc c) (cerr c) (creq c) (cend c).
 Definition set_deadb (c : client) (x : list batch) :=
   mkC (alive c) (cep c) (cst c) (txn_parts c) (pend_parts c) (grp c) (pend_offs c) (queue c) (inflight c) x
-      (slot c) (kcur c) (accepted c) (lostb c) (capp c) (csent c) (cowned c) (ctoc c) (cerr c).
+      (slot c) (kcur c) (accepted c) (lostb c) (capp c) (csent c) (cowned c) (ctoc c) (cerr c) (creq c) (cend c).
 Definition set_slot (c : client) (x : option (skind * sstat)) :=
   mkC (alive c) (cep c) (cst c) (txn_parts c) (pend_parts c) (grp c) (pend_offs c) (queue c) (inflight c) (deadb c)
-      x (kcur c) (accepted c) (lostb c) (capp c) (csent c) (cowned c) (ctoc c) (cerr c).
+      x (kcur c) (accepted c) (lostb c) (capp c) (csent c) (cowned c) (ctoc c) (cerr c) (creq c) (cend c).
 Definition set_accepted (c : client) (x : list (nat * nat)) :=
   mkC (alive c) (cep c) (cst c) (txn_parts c) (pend_parts c) (grp c) (pend_offs c) (queue c) (inflight c) (deadb c)
-      (slot c) (kcur c) x (lostb c) (capp c) (csent c) (cowned c) (ctoc c) (cerr c).
+      (slot c) (kcur c) x (lostb c) (capp c) (csent c) (cowned c) (ctoc c) (cerr c) (creq c) (cend c).
 Definition set_lostb (c : client) (x : bool) :=
   mkC (alive c) (cep c) (cst c) (txn_parts c) (pend_parts c) (grp c) (pend_offs c) (queue c) (inflight c) (deadb c)
-      (slot c) (kcur c) (accepted c) x (capp c) (csent c) (cowned c) (ctoc c) (cerr c).
+      (slot c) (kcur c) (accepted c) x (capp c) (csent c) (cowned c) (ctoc c) (cerr c) (creq c) (cend c).
 Definition set_capp (c : client) (x : list (nat * nat)) :=
   mkC (alive c) (cep c) (cst c) (txn_parts c) (pend_parts c) (grp c) (pend_offs c) (queue c) (inflight c) (deadb c)
-      (slot c) (kcur c) (accepted c) (lostb c) x (csent c) (cowned c) (ctoc c) (cerr c).
+      (slot c) (kcur c) (accepted c) (lostb c) x (csent c) (cowned c) (ctoc c) (cerr c) (creq c) (cend c).
 Definition set_csent (c : client) (x : bool) :=
   mkC (alive c) (cep c) (cst c) (txn_parts c) (pend_parts c) (grp c) (pend_offs c) (queue c) (inflight c) (deadb c)
-      (slot c) (kcur c) (accepted c) (lostb c) (capp c) x (cowned c) (ctoc c) (cerr c).
+      (slot c) (kcur c) (accepted c) (lostb c) (capp c) x (cowned c) (ctoc c) (cerr c) (creq c) (cend c).
 Definition set_ctoc (c : client) (x : list nat) :=
   mkC (alive c) (cep c) (cst c) (txn_parts c) (pend_parts c) (grp c) (pend_offs c) (queue c) (inflight c) (deadb c)
-      (slot c) (kcur c) (accepted c) (lostb c) (capp c) (csent c) (cowned c) x (cerr c).
+      (slot c) (kcur c) (accepted c) (lostb c) (capp c) (csent c) (cowned c) x (cerr c) (creq c) (cend c).
 Definition set_cerr (c : client) (x : bool) :=
   mkC (alive c) (cep c) (cst c) (txn_parts c) (pend_parts c) (grp c) (pend_offs c) (queue c) (inflight c) (deadb c)
-      (slot c) (kcur c) (accepted c) (lostb c) (capp c) (csent c) (cowned c) (ctoc c) x.
+      (slot c) (kcur c) (accepted c) (lostb c) (capp c) (csent c) (cowned c) (ctoc c) x (creq c) (cend c).
+Definition set_creq (c : client) (x : list nat) :=
+  mkC (alive c) (cep c) (cst c) (txn_parts c) (pend_parts c) (grp c) (pend_offs c) (queue c) (inflight c) (deadb c)
+      (slot c) (kcur c) (accepted c) (lostb c) (capp c) (csent c) (cowned c) (ctoc c) (cerr c) x (cend c).
+Definition set_cend (c : client) (x : bool) :=
+  mkC (alive c) (cep c) (cst c) (txn_parts c) (pend_parts c) (grp c) (pend_offs c) (queue c) (inflight c) (deadb c)
+      (slot c) (kcur c) (accepted c) (lostb c) (capp c) (csent c) (cowned c) (ctoc c) (cerr c) (creq c) x.
 Definition set_cowned (c : client) (x : bool) :=
   mkC (alive c) (cep c) (cst c) (txn_parts c) (pend_parts c) (grp c) (pend_offs c) (queue c) (inflight c) (deadb c)
-      (slot c) (kcur c) (accepted c) (lostb c) (capp c) (csent c) x (ctoc c) (cerr c).
+      (slot c) (kcur c) (accepted c) (lostb c) (capp c) (csent c) x (ctoc c) (cerr c) (creq c) (cend c).
 (* begin_transaction: a new application transaction *)
 Definition new_txn (c : client) (t : tst) :=
   mkC (alive c) (cep c) t (txn_parts c) (pend_parts c) (grp c) (pend_offs c) (queue c) (inflight c) []
-      (slot c) (S (kcur c)) [] false [] false false [] false.
-(* error_transaction / fatal_error: partitions, group and pending offsets are forgotten *)
+      (slot c) (S (kcur c)) [] false [] false false [] false [] false.
+(* fatal_error: partitions, group and pending offsets are forgotten *)
 Definition c_clear (c : client) (t : tst) :=
   set_cerr (set_lostb (set_offs (set_grp (set_parts (set_cst c t) [] []) false) []) true) true.
+(* error_transaction: what the coordinator has registered (_txn_partitions, _txn_consumer_group) is
+   kept — the abort has to end it there —, the pending partitions and offsets are dropped *)
+Definition c_err (c : client) (t : tst) :=
+  set_lostb (set_offs (set_parts (set_cst c t) (txn_parts c) []) []) true.
 
 Definition has_part_q (p : nat) (q : list batch) : bool := existsb (fun b => Nat.eqb (bpart b) p) q.
 Definition has_bid (n : nat) (q : list batch) : bool := existsb (fun b => Nat.eqb (bid b) n) q.
@@ -427,12 +439,18 @@ Definition step (s : gstate) (e : event) : option gstate :=
         | Some (KParts, _), IN_TXN | Some (KOffs, _), IN_TXN | Some (KToc, _), IN_TXN
         | Some (KParts, _), COMMITTING | Some (KOffs, _), COMMITTING | Some (KToc, _), COMMITTING
         | Some (KParts, _), ABORTING | Some (KOffs, _), ABORTING | Some (KToc, _), ABORTING =>
-            match trans (cst c) ABORTABLE with Some t => Some (c_clear c t) | None => None end
+            (* Sender._abortable_error: the queued batches of the partitions still waiting for
+               AddPartitionsToTxn have been failed (fail_partitions) before the sets are cleared *)
+            if forallb (fun b => negb (memn (bpart b) (pend_parts c))) (queue c) then
+              match trans (cst c) ABORTABLE with Some t => Some (c_err c t) | None => None end
+            else None
         | _, _ => None
         end)
   | AFatal i =>
       with_client s i (fun c =>
-        match trans (cst c) FATAL with Some t => Some (c_clear c t) | None => None end)
+        (* the sender task exists only once the producer id has been obtained *)
+        if (tcode (cst c) =? 1)%Z then None
+        else match trans (cst c) FATAL with Some t => Some (c_clear c t) | None => None end)
   | AKill i =>
       match nth_error (clients s) i with
       | Some c => Some (put s i (set_alive c false))
@@ -455,7 +473,7 @@ Definition step (s : gstate) (e : event) : option gstate :=
         match slot c with Some _ => Some (set_slot c None) | None => None end)
   | CPartAdded i p =>
       with_client s i (fun c =>
-        if slot_is c KParts SApplied && memn p (pend_parts c)
+        if slot_is c KParts SApplied && memn p (pend_parts c) && memn p (creq c)
         then Some (set_parts c (addn p (txn_parts c)) (remn p (pend_parts c))) else None)
   | CGroupAdded i =>
       with_client s i (fun c => if slot_is c KOffs SApplied then Some (set_grp c true) else None)
@@ -482,6 +500,7 @@ Definition step (s : gstate) (e : event) : option gstate :=
             | Some h =>
                 if Nat.eqb (bid h) b && negb (memn (bpart x) (pend_parts c))
                    && negb (has_part_q (bpart x) (inflight c))
+                   && negb (tcode (cst c) =? 7)%Z          (* the sender is gone after fatal_error *)
                 then Some (set_inflight (set_queue c q)
                                         (inflight c ++ [mkB (bid x) (bpart x) (btag x) (bitems x) true (bapp x)]))
                 else None
@@ -521,8 +540,8 @@ Definition step (s : gstate) (e : event) : option gstate :=
             match v with
             | VApplied =>
                 if Nat.eqb (cep c) (eep en) && not_prep en
-                then Some (put_env (put s i (set_cowned (set_slot c (Some (KParts, SApplied)))
-                                                        (cowned c || negb (is_ongoing en))))
+                then Some (put_env (put s i (set_creq (set_cowned (set_slot c (Some (KParts, SApplied)))
+                                                                  (cowned c || negb (is_ongoing en))) ps))
                                    (env_add en ps (tagof i c)))
                 else None
             | VNot => Some (put s i (set_slot c (Some (KParts, SNotApplied))))
@@ -577,7 +596,8 @@ Definition step (s : gstate) (e : event) : option gstate :=
           then
             match v with
             | VApplied =>
-                let c1 := set_csent (set_slot c (Some (KEnd, SApplied))) (csent c || commit) in
+                let c1 := set_cend (set_deadb (set_csent (set_slot c (Some (KEnd, SApplied))) (csent c || commit)) [])
+                                   true in
                 if Nat.eqb (cep c) (eep en) then
                   match est en with
                   | EOngoing => Some (put_env (put s i c1) (env_st en (EPrep commit) (eep en)))
@@ -676,11 +696,15 @@ Definition ob (s : gstate) (e : event) : option nat :=
   | AComplete i =>
       match get s i with
       | Some c =>
-          (* abort is reported only if no EndTxn(commit) of this transaction was applied; a transaction
-             completes without any EndTxn only if it accepted nothing *)
+          (* abort is reported only if no EndTxn(commit) of this transaction was applied; a commit
+             completes without EndTxn only if the transaction accepted nothing; an abort completes
+             without EndTxn only if the coordinator holds no open transaction of it *)
           if (match cst c with ABORTING => csent c | _ => false end) then Some 4%nat
           else if slot_is c KEnd SApplied then None
-          else if is_niln (accepted c) then None else Some 4%nat
+          else match cst c with
+               | ABORTING => if owner_is en (tagof i c) then Some 4%nat else None
+               | _ => if is_niln (accepted c) then None else Some 4%nat
+               end
       | None => None
       end
   | _ => None
